@@ -19,33 +19,37 @@ Lemma hexval_hexdigit_sweep :
   forallb (fun k => match hexval (hexdigit k) with Some k' => N.eqb k' k | None => false end) (below 16) = true.
 Proof. vm_compute. reflexivity. Qed.
 
+Lemma hexval_hexdigit_in k :
+  In k (below 16) -> match hexval (hexdigit k) with Some k' => N.eqb k' k | None => false end = true.
+Proof. intros H. exact (proj1 (forallb_forall _ _) hexval_hexdigit_sweep k H). Qed.
+
+Lemma hexval_hexdigit_dec k :
+  match hexval (hexdigit k) with Some k' => N.eqb k' k | None => false end = true -> hexval (hexdigit k) = Some k.
+Proof. intros Q. destruct (hexval (hexdigit k)) as [k'|]; [|discriminate]. apply N.eqb_eq in Q. subst. reflexivity. Qed.
+
 Lemma hexval_hexdigit k : k < 16 -> hexval (hexdigit k) = Some k.
-Proof.
-  intros H. pose proof (proj1 (forallb_forall _ _) hexval_hexdigit_sweep k (in_below 16 k H)) as Q.
-  simpl in Q. destruct (hexval (hexdigit k)) as [k'|]; [|discriminate]. apply N.eqb_eq in Q. subst. reflexivity.
-Qed.
-
-Definition hex4_back (n : N) : bool :=
-  match hex4 n with
-  | String a (String b (String c (String d EmptyString))) =>
-      match hex4val a b c d with Some n' => N.eqb n' n | None => false end
-  | _ => false
-  end.
-
-Lemma hex4_sweep : forallb hex4_back (below (256 * 256)) = true.
-Proof. vm_compute. reflexivity. Qed.
+Proof. intros H. apply hexval_hexdigit_dec, hexval_hexdigit_in. exact (in_below 16 k H). Qed.
 
 Lemma hex4_shape n : exists a b c d, hex4 n = String a (String b (String c (String d EmptyString))).
 Proof. unfold hex4. eauto. Qed.
 
+(* the four hex digits of n < 65536 read back as n: digit by digit *)
 Lemma hex4val_hex4 n : n < 65536 ->
   exists a b c d, hex4 n = String a (String b (String c (String d EmptyString))) /\ hex4val a b c d = Some n.
 Proof.
-  intros H. assert (B : N.of_nat (256 * 256) = 65536) by (vm_compute; reflexivity).
-  rewrite <- B in H. pose proof (proj1 (forallb_forall _ _) hex4_sweep n (in_below _ n H)) as Q.
-  unfold hex4_back in Q. destruct (hex4_shape n) as [a [b [c [d E]]]]. rewrite E in Q.
-  exists a, b, c, d. split; [exact E|].
-  destruct (hex4val a b c d) as [n'|]; [|discriminate]. apply N.eqb_eq in Q. subst. reflexivity.
+  intros H. unfold hex4. do 4 eexists. split; [reflexivity|]. unfold hex4val.
+  assert (Q3 : n / 4096 < 16) by (apply N.div_lt_upper_bound; lia).
+  assert (D1 : n / 16 / 16 = n / 256) by (rewrite N.div_div by lia; reflexivity).
+  assert (D2 : n / 256 / 16 = n / 4096) by (rewrite N.div_div by lia; reflexivity).
+  pose proof (N.div_mod n 16 ltac:(lia)) as E0. pose proof (N.mod_lt n 16 ltac:(lia)) as M0.
+  pose proof (N.div_mod (n / 16) 16 ltac:(lia)) as E1. pose proof (N.mod_lt (n / 16) 16 ltac:(lia)) as M1.
+  pose proof (N.div_mod (n / 256) 16 ltac:(lia)) as E2. pose proof (N.mod_lt (n / 256) 16 ltac:(lia)) as M2.
+  rewrite D1 in E1. rewrite D2 in E2.
+  rewrite (N.mod_small (n / 4096) 16) by exact Q3.
+  rewrite !hexval_hexdigit by assumption.
+  f_equal.
+  remember (n / 16) as q1. remember (n / 256) as q2. remember (n / 4096) as q3.
+  remember (n mod 16) as m0. remember (q1 mod 16) as m1. remember (q2 mod 16) as m2. lia.
 Qed.
 
 (* ---- decode1 inverts utf8 ---- *)
